@@ -30,6 +30,16 @@ impl BufferPool {
     }
 }
 
+#[cfg(gufo_snmp_verif)]
+impl BufferPool {
+    pub fn verif_clear(&self) {
+        self.pool.lock().unwrap().clear();
+    }
+    pub fn verif_len(&self) -> usize {
+        self.pool.lock().unwrap().len()
+    }
+}
+
 pub struct BufferHandle {
     pool: Arc<Mutex<Vec<Buffer>>>,
     buf: Option<Buffer>, // to use with take
